@@ -180,6 +180,11 @@ impl Property for C17 {
                 let n = if unit_pct.is_some() {
                     // several units of one dictionary size each (the dictionary of this kind is at most 1 MiB)
                     (o.dict_size as usize * 4).max(300_000)
+                } else if case.seed & 1 == 1 && o.dict_size <= (2 << 20) {
+                    // long enough for the encoder's window to slide (more than 1.5 dictionaries + 256 KiB): whatever the
+                    // slide allocates counts towards the peak
+                    obs.class("encoder_window_slides");
+                    o.dict_size as usize * 3 / 2 + (300 << 10) + (case.seed % 200_000) as usize
                 } else {
                     ((o.dict_size as usize * 3 / 2).min(1 << 20)).max(1000)
                 };
